@@ -54,6 +54,9 @@ fn c10_letters(tier: Tier) -> Vec<Op> {
         Op::RenameF(1, 3),
         Op::RenameF(3, 0),
         Op::RenameF(0, 0),
+        Op::WriteAt(0, 1, 1, Uring),
+        Op::WriteAt(0, 3, 2, Uring),
+        Op::ReadAt(0, 0, 4, Uring),
         Op::Advance,
     ];
     if tier == Tier::Thorough {
